@@ -500,11 +500,10 @@ func oddEvents(s *evx.Sim, thorough bool, yield func(typ, desc string, x shutter
 	a := u.Addrs
 	senders := []common.Address{a[0], me, a[2], a[4], {}}
 	eons := []uint64{s.Eon, 0, s.Eon + 1, math.MaxUint64}
-	maxLen := 2
+	lists := evx.AddrLists([]common.Address{me, a[0], a[2], a[4], {}}, 2)
 	if thorough {
-		maxLen = 3
+		lists = append(lists, []common.Address{me, a[0], a[2]}, []common.Address{a[0], a[2], me}, []common.Address{a[4], {}, me})
 	}
-	lists := evx.AddrLists([]common.Address{me, a[0], a[2], a[4], {}}, maxLen)
 	x := []byte{0xab}
 	valid := s.ValidEvalForMe
 	evalLists := [][][]byte{nil, {{}}, {x}, {valid}, {{}, x}, {valid, x}, {x, valid}, {x, x, x}}
@@ -592,7 +591,12 @@ func c14PartD(c *report.Ctx, s *evx.Sim, unit *int) {
 		}
 		for _, p := range matchingPhases(typ, c.Thorough) {
 			c14Hand(c, s, "d", "constructed event: "+desc, ev, typ, p, false, false)
-			if c.Thorough {
+		}
+		if c.Thorough {
+			// in the matching phase also as the last event of the block, and handed to
+			// a keyper that was restarted just before (not in "dealing": a keyper
+			// restarted before it has the commitments loses the DKG, see the report)
+			for _, p := range matchingPhases(typ, false) {
 				c14Hand(c, s, "d", "constructed event (last in block): "+desc, ev, typ, p, true, false)
 				if p != evx.Dealing {
 					c14Hand(c, s, "d", "constructed event (keyper restarted before): "+desc, ev, typ, p, false, true)
@@ -704,8 +708,8 @@ func c14() *report.Check {
 				})
 			}
 			c14PartE(c, s, &unit)
-			c14PartD(c, s, &unit)
 			c14PartCD(c, s, &unit)
+			c14PartD(c, s, &unit)
 		},
 		Replay: func(c *report.Ctx, raw json.RawMessage) string {
 			var rp c14Replay
